@@ -138,6 +138,9 @@ def run(ctx):
     ctx.rule("C01.i", "literal format: <sign><nbits>'d<abs(value)>, sign iff value < 0", min_sites=4)
     ctx.rule("C01.j", "inclusive bounds: every printed range upper bound is (length or stop) - 1", min_sites=10)
     ctx.rule("C01.k", "Cat prints its operands reversed exactly once (Migen LSB-first, Verilog MSB-first)", min_sites=1)
+    ctx.rule("C01.m", "slice lowering: a slice of a Cat/Replicate/nested slice is re-targeted to the one element that holds all its "
+                      "bits with start made relative to it; the element offset restarts for every Cat entered; containment tests "
+                      "evaluated exhaustively on a small integer domain against their specification", min_sites=13)
     ctx.rule("C01.l", "each always @(posedge clk) block pairs the clock and the statements of the same sync domain; the "
                       "simulator applies insert_resets too", min_sites=2)
 
@@ -651,3 +654,172 @@ def run(ctx):
         ok = "ns.get_name(f.clock_domains[k].clk)" in body and "_generate_node(ns, AssignType.SIGNAL, 1, v)" in body and "posedge" in body
     ctx.ob("C01.l", VER, "_generate_synchronous_logic", "clock of domain k with statements of domain k", ok,
            "" if ok else "clock and statement list no longer come from the same (k, v) pair", sy)
+
+    # ================================================================ C01.m
+    _slice_lowering(ctx, vm)
+
+
+def _ieval(e, env):
+    """Integer/boolean value of a small expression over env (names and `len(<text>)` keys); raises KeyError/ValueError."""
+    if isinstance(e, ast.Constant) and isinstance(e.value, (int, bool)):
+        return e.value
+    if isinstance(e, ast.Name):
+        return env[e.id]
+    if isinstance(e, ast.Call) and norm(e.func) == "len" and len(e.args) == 1:
+        return env["len(" + norm(e.args[0]) + ")"]
+    if isinstance(e, ast.UnaryOp) and isinstance(e.op, ast.Not):
+        return not _ieval(e.operand, env)
+    if isinstance(e, ast.UnaryOp) and isinstance(e.op, ast.USub):
+        return -_ieval(e.operand, env)
+    if isinstance(e, ast.BinOp):
+        a, b = _ieval(e.left, env), _ieval(e.right, env)
+        ops = {ast.Add: lambda: a + b, ast.Sub: lambda: a - b, ast.Mult: lambda: a * b, ast.FloorDiv: lambda: a // b, ast.Mod: lambda: a % b}
+        if type(e.op) in ops:
+            return ops[type(e.op)]()
+    if isinstance(e, ast.BoolOp):
+        vs = [_ieval(v, env) for v in e.values]
+        return all(vs) if isinstance(e.op, ast.And) else any(vs)
+    if isinstance(e, ast.Compare):
+        l = _ieval(e.left, env)
+        for op, c in zip(e.ops, e.comparators):
+            r = _ieval(c, env)
+            res = {ast.Lt: l < r, ast.LtE: l <= r, ast.Gt: l > r, ast.GtE: l >= r, ast.Eq: l == r, ast.NotEq: l != r}.get(type(op))
+            if res is None:
+                raise ValueError("operator")
+            if not res:
+                return False
+            l = r
+        return True
+    raise ValueError(f"cannot evaluate {norm(e)}")
+
+
+def _slice_lowering(ctx, vm):
+    """C01.m: a slice of a Cat / Replicate / nested slice is re-targeted to the element that holds all its bits, with the
+    offset made relative to that element (the simulator evaluates the slice on the whole value: both must select the same bits)."""
+    # ---- _lower_slice_cat
+    fn = vm.func("_lower_slice_cat")
+    ctx.analysed["functions"].add(f"{VER}::_lower_slice_cat")
+    a = [x.arg for x in fn.args.args]
+    ctx.need(len(a) == 3, "_lower_slice_cat(node, start, length): signature changed")
+    node_v, start_v, len_v = a
+    outer = [n for n in fn.body if isinstance(n, ast.While)]
+    ctx.need(len(outer) == 1, "_lower_slice_cat: outer `while isinstance(node, Cat)` loop not found")
+    inner = [n for n in outer[0].body if isinstance(n, ast.For)]
+    ctx.need(len(inner) == 1 and isinstance(inner[0].target, ast.Name), "_lower_slice_cat: inner loop over the Cat's elements not found")
+    el = inner[0].target.id
+    ok = norm(outer[0].test) == f"isinstance({node_v}, Cat)" and norm(inner[0].iter) == f"{node_v}.l"
+    ctx.ob("C01.m", VER, "_lower_slice_cat", "descends while the node is a Cat, over its elements in order (LSB first)", ok,
+           "" if ok else f"while {norm(outer[0].test)} / for {el} in {norm(inner[0].iter)}", outer[0])
+    # the running offset: the variable that is += len(el) in the inner loop
+    accs = [n for n in ast.walk(inner[0]) if isinstance(n, ast.AugAssign) and isinstance(n.op, ast.Add) and norm(n.value) == f"len({el})"
+            and isinstance(n.target, ast.Name)]
+    ctx.need(len(accs) == 1, "_lower_slice_cat: running element offset (`+= len(e)`) not found")
+    off = accs[0].target.id
+    # (1) offsets are relative to the current node: fresh in every iteration of the outer loop
+    synth = ast.FunctionDef(name="<iteration>", args=ast.arguments(posonlyargs=[], args=[], kwonlyargs=[], kw_defaults=[], defaults=[]),
+                            body=outer[0].body, decorator_list=[], lineno=outer[0].lineno, col_offset=0)
+    stale = None
+    npaths = 0
+    for p in P.feasible_paths(synth):
+        npaths += 1
+        have = False
+        for e in p.ev:
+            node = e[1]
+            if e[0] == "stmt" and isinstance(node, ast.Assign) and any(isinstance(t, ast.Name) and t.id == off for t in node.targets):
+                have = True
+                continue
+            tgt = node.iter if (e[0] == "stmt" and isinstance(node, ast.For)) else node
+            if e[0] == "stmt" and isinstance(node, (ast.If, ast.While)):
+                continue
+            if any(isinstance(x, ast.Name) and x.id == off for x in ast.walk(tgt)) and not have:
+                stale = (node, p)
+                break
+        if stale:
+            break
+    ctx.analysed["paths"] += npaths
+    ctx.ob("C01.m", VER, "_lower_slice_cat", f"element offset `{off}` restarts at 0 for every Cat that is entered", stale is None,
+           "" if stale is None else f"`{off}` is used at line {getattr(stale[0], 'lineno', '?')} of one iteration of the descent without having been "
+                                    f"reset in it: inside a nested Cat the elements are compared against offsets shifted by the position of the "
+                                    f"inner Cat, the slice silently selects other bits than the simulator", stale[0] if stale else fn)
+    zero = [n for n in ast.walk(fn) if isinstance(n, ast.Assign) and norm(n.targets[0]) == off]
+    ok = len(zero) >= 1 and all(norm(z.value) == "0" for z in zero)
+    ctx.ob("C01.m", VER, "_lower_slice_cat", f"`{off}` starts at 0", ok, "" if ok else f"{[norm(z) for z in zero]}", outer[0])
+    # (2) containment test
+    ifs = [n for n in inner[0].body if isinstance(n, ast.If)]
+    ctx.need(len(ifs) == 1, "_lower_slice_cat: element selection test not found")
+    bad = None
+    n_eval = 0
+    try:
+        for cs in range(0, 5):
+            for le in range(1, 5):
+                for st in range(0, 9):
+                    for ln in range(1, 5):
+                        got = bool(_ieval(ifs[0].test, {off: cs, start_v: st, len_v: ln, f"len({el})": le}))
+                        want = cs <= st and st + ln <= cs + le
+                        n_eval += 1
+                        if got != want and bad is None:
+                            bad = (cs, le, st, ln, got)
+    except (KeyError, ValueError) as ex:
+        ctx.need(False, f"_lower_slice_cat: selection test `{norm(ifs[0].test)}` not understood ({ex})")
+    ctx.ob("C01.m", VER, "_lower_slice_cat", "element chosen iff it holds every bit of the slice", bad is None,
+           "" if bad is None else f"`{norm(ifs[0].test)}` is {bad[4]} for element offset {bad[0]}, element width {bad[1]}, slice start {bad[2]}, "
+                                  f"length {bad[3]}: a slice that crosses (or misses) the element is re-targeted to it", ifs[0])
+    ctx.analysed["paths"] += n_eval
+    # (3) re-targeting
+    body = ifs[0].body
+    sub = [n for n in body if isinstance(n, ast.AugAssign) and isinstance(n.op, ast.Sub) and norm(n.target) == start_v and norm(n.value) == off] + \
+          [n for n in body if isinstance(n, ast.Assign) and norm(n.targets[0]) == start_v and norm(n.value) == f"{start_v} - {off}"]
+    ren = [n for n in body if isinstance(n, ast.Assign) and norm(n.targets[0]) == node_v and norm(n.value) == el]
+    brk = [n for n in body if isinstance(n, ast.Break)]
+    ok = len(sub) == 1 and len(ren) == 1 and len(brk) == 1 and len(body) == 3
+    ctx.ob("C01.m", VER, "_lower_slice_cat", "on selection: start becomes relative to the element, node becomes the element, scan stops", ok,
+           "" if ok else f"{[norm(x) for x in body]}", ifs[0])
+    ok = accs[0] in inner[0].body and inner[0].body.index(accs[0]) > inner[0].body.index(ifs[0])
+    ctx.ob("C01.m", VER, "_lower_slice_cat", "offset advances by the element width after an element is rejected", ok, "" if ok else "order changed", accs[0])
+    rets = [n for n in ast.walk(fn) if isinstance(n, ast.Return)]
+    ok = len(rets) == 1 and norm(rets[0].value) == f"({node_v}, {start_v})"
+    ctx.ob("C01.m", VER, "_lower_slice_cat", "returns (node, start)", ok, "" if ok else f"{[norm(r.value) for r in rets]}", fn)
+
+    # ---- _lower_slice_replicate
+    fr = vm.func("_lower_slice_replicate")
+    ctx.analysed["functions"].add(f"{VER}::_lower_slice_replicate")
+    ar = [x.arg for x in fr.args.args]
+    ifs = [n for n in ast.walk(fr) if isinstance(n, ast.If)]
+    ctx.need(len(ifs) == 1 and len(ar) == 3, "_lower_slice_replicate: shape changed")
+    bad = None
+    try:
+        for w in range(1, 5):
+            for st in range(0, 13):
+                for ln in range(1, 6):
+                    got = bool(_ieval(ifs[0].test, {ar[1]: st, ar[2]: ln, f"len({ar[0]}.v)": w}))
+                    want = (st // w) == ((st + ln - 1) // w)
+                    if got != want and bad is None:
+                        bad = (w, st, ln, got)
+    except (KeyError, ValueError) as ex:
+        ctx.need(False, f"_lower_slice_replicate: test `{norm(ifs[0].test)}` not understood ({ex})")
+    ctx.ob("C01.m", VER, "_lower_slice_replicate", "descends iff the slice lies inside one copy", bad is None,
+           "" if bad is None else f"`{norm(ifs[0].test)}` is {bad[3]} for copy width {bad[0]}, start {bad[1]}, length {bad[2]}", ifs[0])
+    upd = [norm(n) for n in ifs[0].body]
+    ok = sorted(upd) == sorted([f"{ar[1]} = {ar[1]} % len({ar[0]}.v)", f"{ar[0]} = {ar[0]}.v"]) and upd[0].startswith(ar[1]) or \
+        sorted(upd) == sorted([f"{ar[1]} %= len({ar[0]}.v)", f"{ar[0]} = {ar[0]}.v"]) and upd[0].startswith(ar[1])
+    ctx.ob("C01.m", VER, "_lower_slice_replicate", "start taken modulo the copy width, then node becomes the copy", ok, "" if ok else f"{upd}", ifs[0])
+
+    # ---- _ComplexSliceLowerer.visit_Slice
+    vs = vm.method("_ComplexSliceLowerer", "visit_Slice")
+    ctx.analysed["functions"].add(f"{VER}::_ComplexSliceLowerer.visit_Slice")
+    wl = [n for n in vs.body if isinstance(n, ast.While)]
+    pre = {norm(n.targets[0]): norm(n.value) for n in vs.body if isinstance(n, ast.Assign)}
+    ok = len(wl) == 1 and pre.get("length") == "len(node)" and pre.get("start") == "0" and norm(wl[0].test) == "isinstance(node, _Slice)" and \
+        not any(isinstance(n, (ast.Assign, ast.AugAssign)) and norm(n.targets[0] if isinstance(n, ast.Assign) else n.target) == "length" for n in ast.walk(wl[0]))
+    ctx.ob("C01.m", VER, "visit_Slice", "length = width of the outermost slice, fixed; start accumulates from 0 over nested slices", ok,
+           "" if ok else f"{pre}", vs)
+    if wl:
+        b = [norm(n) for n in wl[0].body[:2]]
+        ok = b == ["start += node.start", "node = node.value"]
+        ctx.ob("C01.m", VER, "visit_Slice", "start += inner slice start before stepping to its value", ok, "" if ok else f"{b}", wl[0])
+    sl = [norm(n) for n in ast.walk(vs) if isinstance(n, ast.Call) and norm(n.func) == "_Slice"]
+    ok = len(sl) == 2 and all(x.endswith("start, start + length)") for x in sl)
+    ctx.ob("C01.m", VER, "visit_Slice", "emitted slice is [start, start + length)", ok, "" if ok else f"{sl}", vs)
+    idt = [n for n in vs.body if isinstance(n, ast.If) and any(isinstance(x, ast.Return) for x in n.body)]
+    ok = bool(idt) and norm(idt[0].test) in ("start == 0 and len(node) == length", "len(node) == length and start == 0")
+    ctx.ob("C01.m", VER, "visit_Slice", "slice dropped only when it covers the whole node", ok, "" if ok else f"{[norm(i.test) for i in idt]}", vs)
